@@ -538,6 +538,58 @@ def indexed_stat_cases(draw):
             "axis": draw(st.one_of(st.none(), st.integers(0, 3))), "stat": draw(st.sampled_from(["minimum", "maximum", "mean", "sum", "median"]))}
 
 
+# --------------------------------------------------------------------------- small exhaustive: infinities and NaN in every position
+
+def inf_blocks(tier):
+    import itertools
+    alphabet = [1.0, -2.0, float("inf"), float("-inf"), float("nan")]
+    n = 4 if tier == "thorough" else 3
+    for shape in ([n], [2, 2]):
+        size = int(np.prod(shape))
+        for vals in itertools.product(alphabet, repeat=size):
+            yield {"k": "inf", "vals": list(vals), "shape": shape}
+
+
+def fn_inf(spec, rec):
+    """every array over {1, -2, inf, -inf, NaN} of a small size x every selection mask x every statistic x axis x
+    finite / positive: the NaN-aware definition holds whatever mixture of infinities a group contains"""
+    import itertools
+    from glue.core import Data
+    from glue.core.subset import MaskSubsetState
+    vals = np.array(spec["vals"], dtype=float).reshape(spec["shape"])
+    d = Data(label="inf", v=vals)
+    ev = nt = 0
+    axes = [None] + list(range(vals.ndim))
+    masks = [None] + [np.array(m, dtype=bool).reshape(vals.shape) for m in itertools.product([False, True], repeat=vals.size) if any(m)]
+    for mask in masks:
+        state = None if mask is None else MaskSubsetState(mask, d.pixel_component_ids)
+        for stat in ("sum", "mean", "minimum", "maximum"):
+            for finite, positive in ((True, False), (False, False), (False, True), (True, True)):
+                if mask is None and not finite and not positive and np.isnan(vals).any():
+                    continue        # the plain-reducer corner (see `statistics`)
+                keep = np.ones(vals.shape, dtype=bool) if mask is None else mask.copy()
+                with np.errstate(all="ignore"):
+                    if finite:
+                        keep &= np.isfinite(vals)
+                    if positive:
+                        keep &= vals > 0
+                for axis in axes:
+                    expected = oracle_stat(stat, vals, keep, axis, 50)
+                    try:
+                        got = d.compute_statistic(stat, d.id["v"], subset_state=state, axis=axis, finite=finite, positive=positive)
+                    except Exception as e:  # noqa
+                        if blame(e)[0] != "glue":
+                            raise
+                        raise Mismatch("inf-stat-raises/%s/%s" % (stat, type(e).__name__), repr(e)[:200], dict(spec, k="inf"))
+                    ev += 1
+                    if not close(got, expected):
+                        raise Mismatch("inf-stat-value/%s/%s" % (stat, "finite" if finite else "with-infinities"),
+                                       {"stat": stat, "axis": axis, "finite": finite, "positive": positive, "mask": None if mask is None else mask.astype(int).tolist(),
+                                        "got": np.asarray(got).tolist(), "expected": np.asarray(expected).tolist()}, dict(spec, k="inf"))
+                    nt += bool(np.isinf(vals[keep]).any()) if keep.any() else 0
+    rec.bulk(ev, nt)
+
+
 # --------------------------------------------------------------------------- log histograms over many orders of magnitude
 
 def fn_log_hist(spec, rec):
@@ -627,4 +679,5 @@ def checks(tier):
         Check("viewer_layer_products", fn_layer_products, strategy=product_cases(), examples=n[3]),
         Check("aligned_statistics", fn_aligned_stat, strategy=aligned_stat_cases(), examples=n[4]),
         Check("log_histograms_wide", fn_log_hist, strategy=log_hist_cases, examples=n[5]),
+        Check("infinities_exhaustive", fn_inf, enum=inf_blocks, count_distinct=False, reset=False),
     ]
